@@ -14,7 +14,9 @@ multiplicities computed by textx/lang.py:
       (not finding one inside the bound is reported as undecided).
 Order / exactly-once (witness replay): one witness per accepted
 character-class string is loaded by the real textX and compared with the
-reference model (values in input order, nothing lost).
+reference model (values in input order, nothing lost) — once over textX's
+generated classes and once over Python user classes that were used before
+with a grammar of opposite multiplicities (stale per-class state).
 """
 import time
 
@@ -59,6 +61,37 @@ def check_text(g, mm, text, tag):
             return True, 'value lost: ' + str(detail)
         return False, 'loads and equals the reference model'
     return False, 'real outcome %s: %s' % (kind, val)
+
+
+def reused_user_class_mm(g, mm):
+    """meta-model of g over Python user classes that were used before, in the
+    same process, with another grammar that gives every attribute the opposite
+    multiplicity (scalar <-> list) and that has built one object of each class.
+    Returns None when g has no common rule."""
+    from textx import metamodel_from_str
+    from textx.const import RULE_COMMON
+    names = [r[0] for r in g['rules']]
+    commons = [nm for nm in names if mm[nm]._tx_type == RULE_COMMON and mm[nm]._tx_attrs]
+    if not commons:
+        return None
+
+    def init(self, parent=None, **kw):
+        if parent is not None:
+            self.parent = parent
+        for k, v in kw.items():
+            setattr(self, k, v)
+    classes = [type(nm, (object,), {'__init__': init}) for nm in commons]
+    prior = ["Prior_: objs_+=Any_;", "Any_: %s;" % ' | '.join(commons)]
+    for nm in commons:
+        parts = []
+        for a in mm[nm]._tx_attrs.values():
+            parts.append("('%s' %s=INT)?" % (a.name, a.name) if a.mult in ('0..*', '1..*')
+                         else "('%s' %s+=INT)*" % (a.name, a.name))
+        prior.append("%s: '%s' %s;" % (nm, nm, ' '.join(parts)))
+    pm = metamodel_from_str('\n'.join(prior), classes=classes)
+    pm.model_from_str(' '.join(commons))
+    cfg = {k: v for k, v in g['cfg'].items() if k in pegcheck.MM_KEYS}
+    return metamodel_from_str(pegcheck.render_grammar(g['rules']), classes=classes, **cfg)
 
 
 def obligation(item):
@@ -116,13 +149,17 @@ def obligation(item):
             for k in z.queries:
                 z.queries[k] += z2.queries[k]
             z.secs += z2.secs
+            mm_uc = reused_user_class_mm(g, mm)
             for text in texts:
                 res['witnesses'] += 1
-                kind, detail, ce = compare_one(g, mm, {}, text)
-                res['validated'] += 1
-                if kind == 'model' and not explained_by_nodeless(ce) and len(res['violations']) < 3:
-                    res['violations'].append({'grammar': g['name'], 'text': text, 'kind': 'model',
-                                              'detail': detail, 'attr': None})
+                for m_, kd in ((mm, 'model'), (mm_uc, 'model-reused-user-classes')):
+                    if m_ is None:
+                        continue
+                    kind, detail, ce = compare_one(g, m_, {}, text)
+                    res['validated'] += 1
+                    if kind == 'model' and not explained_by_nodeless(ce) and len(res['violations']) < 3:
+                        res['violations'].append({'grammar': g['name'], 'text': text, 'kind': kd,
+                                                  'detail': detail, 'attr': None})
     res['queries'] = z.queries
     res['solver_s'] = z.secs
     return res
@@ -201,6 +238,9 @@ def replay(data):
         return lm not in ('1', '0..1'), {'live_mult': lm}
     if data.get('kind') == 'model':
         kind, detail, ce = compare_one(g, mm, {}, data['text'])
+        return kind == 'model', detail
+    if data.get('kind') == 'model-reused-user-classes':
+        kind, detail, ce = compare_one(g, reused_user_class_mm(g, mm), {}, data['text'])
         return kind == 'model', detail
     name, attr = data['attr'].split('.')
     return check_text(g, mm, data['text'], (name, attr))
